@@ -127,6 +127,10 @@ def _shard_entry(args):
         getattr(mod, fname)(P, *shard)
     except Inconclusive as e:
         P.notes.append("INCONCLUSIVE:" + str(e))
+    except Exception:
+        # a crash of the HARNESS in one shard must not throw away what the shard's monitors
+        # already recorded (violations take precedence over 'inconclusive' in the verdict)
+        P.notes.append("INCONCLUSIVE:harness error in shard %s%r: %s" % (fname, shard[:3], traceback.format_exc()[-600:]))
     return P
 
 
